@@ -117,7 +117,7 @@ def _hybrid_bitpacked(vals, width):
 
 
 def build_dict(path, dictionary, indices, width, nulls=None, optional=False, pages=1, stats_null_count="absent",
-               version=1, page_rows=None, compress=False, split_runs=False):
+               version=1, page_rows=None, compress=False, split_runs=False, rle_levels=False):
     """flat INT64 column, data page v1 (or v2), RLE_DICTIONARY: a PLAIN dictionary page followed by `pages` data pages
     (or one page per entry of page_rows) whose indices are one bit-packed run of the given width; nulls (list of bool
     per row) only when optional"""
@@ -149,7 +149,11 @@ def build_dict(path, dictionary, indices, width, nulls=None, optional=False, pag
         idx = [next(it) for isnull in rows if not isnull]
         body, lv = b"", b""
         if optional:
-            lv = _hybrid_bitpacked([0 if x else 1 for x in rows], 1)
+            if rle_levels:
+                # the same levels as RLE runs of one value each (run header 1 << 1, then the value): two bytes per row
+                lv = b"".join(_uleb(2) + bytes([0 if x else 1]) for x in rows)
+            else:
+                lv = _hybrid_bitpacked([0 if x else 1 for x in rows], 1)
             body += (struct.pack("<I", len(lv)) if version == 1 else b"") + lv
         if split_runs and width:
             # the same indices as several bit-packed runs of one group (8 values) each
